@@ -139,6 +139,7 @@ func newEngineRT(name string) *engineRT {
 	_, err := e.rt.NewHostModuleBuilder(hostModName).
 		NewFunctionBuilder().WithGoModuleFunction(api.GoModuleFunc(hostPanic), []api.ValueType{i32}, nil).Export("panic").
 		NewFunctionBuilder().WithGoModuleFunction(api.GoModuleFunc(hostClose), []api.ValueType{i32}, nil).Export("close").
+		NewFunctionBuilder().WithGoModuleFunction(api.GoModuleFunc(hostGC), nil, []api.ValueType{i32}).Export("gc").
 		NewFunctionBuilder().WithGoModuleFunction(api.GoModuleFunc(hostReenter), []api.ValueType{i32, i32, i32, i32, i32}, []api.ValueType{i32}).Export("reenter").
 		Instantiate(ctx)
 	if err != nil {
@@ -180,6 +181,25 @@ func hostPanic(ctx context.Context, mod api.Module, stack []uint64) {
 		panic(theCustomVal)
 	}
 	panic("c06: hostPanic called with unknown kind")
+}
+
+var gcSink []byte
+
+// hostGC runs while DeepFrames guest frames are live on a stack that has been grown several times:
+// the outgrown stacks are garbage now. Collect (the children run with GODEBUG=clobberfree=1, so
+// freed objects are overwritten), churn blocks of the outgrown sizes, collect again.
+func hostGC(ctx context.Context, mod api.Module, stack []uint64) {
+	runtime.GC()
+	for sz := 8 << 10; sz <= 256<<10; sz *= 2 {
+		b := make([]byte, sz+48)
+		for i := range b {
+			b[i] = 0xA5
+		}
+		gcSink = b
+	}
+	gcSink = nil
+	runtime.GC()
+	stack[0] = 1
 }
 
 func hostClose(ctx context.Context, mod api.Module, stack []uint64) {
